@@ -420,12 +420,27 @@ func Catch(f func()) (p string) {
 	return ""
 }
 
+// firstFrames keeps the function names of the first frames only (no
+// addresses, arguments or goroutine ids), so that the text is deterministic.
 func firstFrames(s string) string {
 	lines := strings.Split(s, "\n")
-	if len(lines) > 16 {
-		lines = lines[:16]
+	out := []string{}
+	for _, l := range lines {
+		if l == "" || strings.HasPrefix(l, "\t") || strings.HasPrefix(l, "goroutine ") {
+			continue
+		}
+		if i := strings.LastIndex(l, "("); i > 0 {
+			l = l[:i]
+		}
+		if strings.HasPrefix(l, "runtime.") || strings.HasPrefix(l, "panic") || strings.Contains(l, "chk.Catch") {
+			continue
+		}
+		out = append(out, l)
+		if len(out) >= 8 {
+			break
+		}
 	}
-	return strings.Join(lines, "\n")
+	return strings.Join(out, " < ")
 }
 
 // ---- registry -------------------------------------------------------------
